@@ -63,11 +63,20 @@ USER_IMPORTS = [
 ]
 
 
-def hostile_items(names):
+def hostile_items(names, spec=None):
     out = []
+    mid = None
+    if spec is not None:
+        sv = M.RefEnum(spec).sorted_values
+        mid = (sv[1] if len(sv) > 1 else sv[0], sv[-2] if len(sv) > 1 else sv[0])
     for n in names:
         kind, name = n.split(":")
-        if kind == "type":
+        if kind == "primmod":
+            # a user module named like an integer type (as the legacy `core::u8` modules are): a two-segment path
+            # `u8::MAX` written by the derive would find it; the constants are well typed and equal to inner discriminants
+            lo, hi = (mid if (mid is not None and name == spec["repr"]) else (1, 1))
+            out.append("pub mod %s { pub const MIN: %s = %d; pub const MAX: %s = %d; pub const BITS: u32 = 1; }" % (name, name, lo, name, hi))
+        elif kind == "type":
             out.append("pub struct %s;" % name)
         elif kind == "trait":
             out.append("pub trait %s { %s }" % (name, H_TRAITS[name]))
@@ -81,7 +90,8 @@ def hostile_items(names):
 
 
 ALL_HOSTILE = (["type:" + n for n in H_TYPES] + ["trait:" + n for n in H_TRAITS if n not in H_TYPES] +
-               ["mod:" + n for n in H_MODS] + ["macro:" + n for n in H_MACROS] + ["fn:" + n for n in H_FNS])
+               ["mod:" + n for n in H_MODS] + ["macro:" + n for n in H_MACROS] + ["fn:" + n for n in H_FNS] +
+               ["primmod:" + n for n in M.REPRS])
 
 
 @st.composite
@@ -184,10 +194,10 @@ def run_case(case):
             s2 = copy.deepcopy(spec)
             modules.append((s2, cfg, {"kind": "fn_body"}))
         elif cx == "hostile":
-            modules.append((spec, cfg, {"kind": "hostile", "items": hostile_items(case["hostile"]),
+            modules.append((spec, cfg, {"kind": "hostile", "items": hostile_items(case["hostile"], spec),
                                         "no_prelude": case["hostile_no_prelude"]}))
         elif cx == "hostile_all":
-            modules.append((spec, cfg, {"kind": "hostile", "items": hostile_items(all_hostile_unique()),
+            modules.append((spec, cfg, {"kind": "hostile", "items": hostile_items(all_hostile_unique(), spec),
                                         "no_prelude": case["hostile_no_prelude"]}))
         elif cx == "imports":
             # the user imports the real core items under their own names: anything the derive puts at module level
